@@ -4,9 +4,14 @@ import (
 	"time"
 
 	"github.com/zenon-network/go-zenon/consensus"
+	"github.com/zenon-network/go-zenon/vm/constants"
 )
 
 // setGlobals fixes the process-global configuration of the worker process (each worker is a fresh process).
 func setGlobals() {
 	consensus.EpochDuration = time.Hour // as the repository's own embedded tests: several epochs within a few hundred momentums
+	// sentinels can be revoked from 2 h after their registration on (repository: 27 days locked, 3 days revocable), so that the
+	// embedded chain, which spans a dozen hours, can contain revoked registry entries next to active ones
+	constants.SentinelLockTimeWindow = 2 * 3600
+	constants.SentinelRevokeTimeWindow = 1000 * 3600
 }
